@@ -14,10 +14,28 @@ build() {
     echo "BUILD-FAILED (see /verif/.build/build.log)"; tail -n 30 /verif/.build/build.log; return 2
   fi
 }
+build_race() {
+  local out=/verif/.build/sim-race
+  if ! $GO build -race -o "$out" ./cmd/sim 2>/verif/.build/build-race.log; then
+    echo "BUILD-FAILED (see /verif/.build/build-race.log)"; tail -n 30 /verif/.build/build-race.log; return 2
+  fi
+}
+needs_race() {
+  case "$1" in C20) return 0 ;; esac
+  if [ -f "$1" ] && grep -q '"property": *"C20"' "$1" 2>/dev/null; then return 0; fi
+  return 1
+}
 case "${1:-}" in
-  build) build; exit $? ;;
-  replay) build || exit 2; exec /verif/.build/sim replay "$2" ;;
+  build) build && build_race; exit $? ;;
+  replay)
+    if needs_race "$2"; then build_race || exit 2; export GORACE="halt_on_error=0 exitcode=0"; exec /verif/.build/sim-race replay "$2"; fi
+    build || exit 2; exec /verif/.build/sim replay "$2" ;;
   "") echo "usage: run.sh <property> <quick|thorough>"; exit 2 ;;
 esac
+if needs_race "$1"; then
+  build_race || exit 2
+  export GORACE="halt_on_error=0 exitcode=0"
+  exec /verif/.build/sim-race check "$1" "${2:-quick}"
+fi
 build || exit 2
 exec /verif/.build/sim check "$1" "${2:-quick}"
